@@ -57,6 +57,18 @@ check('C09', 'text-stream sim',
       'DESIGN.md 3.1')
 
 
+ENGINES.append(
+    {'name': 'history sim', 'path': '/verif/checks/c15_history.py',
+     'serves_properties': ['C15'],
+     'kind_free_text': 'seeded interleaving of 1-3 logical clients over shared and private library objects (real pgradd end to end), transient file faults on loads through a pass-through open() seam, fresh-process oracle by fork of a pristine zygote (two-level: per library lineage), state-digest invariants after every step'})
+
+check('C15', 'history sim',
+      'Seeded search over operation histories (load / decompose / estimate from any earlier decomposition / evaluate with and without the elemental reference / merge / re-load / failing operations / loads under injected file faults), interleaved over 1-3 clients that share or own library objects. Every observation is compared with the same minimal chain computed first in a fresh process, and after every step every live library, every descriptor mapping held by a client and the process-wide registries are digested and must be unchanged. Sampling over histories: a clean batch is evidence, not proof.',
+      'Trusts fork() of a just-imported interpreter as "fresh process" (a sample of reference values is recomputed in genuinely new interpreters under another hash seed on every run); operations are atomic scheduler steps (no pre-emption inside an operation); histories <= 40 operations, <= 3 live libraries, <= 2 merges per object.',
+      'deterministic simulation: seeded scheduler over client histories + fault injection on loads, checked against fresh-process references and state-digest invariants',
+      'DESIGN.md 3.4')
+
+
 def build(claimed):
     man = {
         'version': 1,
